@@ -202,6 +202,12 @@ def gen_tree(rng, depth):
     if r < 0.14:
         return Node("abs", [gen_tree(rng, depth - 1)])
     op = rng.choice(["+", "+", "-", "-", "*", "/"])
+    if op in "*/" and rng.random() < 0.8:
+        # mostly-valid stream: scale by a scalar (the cells the code defines); the rest is the malformed stream
+        right = gen_leaf(rng, rng.choice(["plain", "plain", "int"]))
+        if op == "/" and right.q == 0:
+            right = Leaf("amt", Fraction(3, 2), 1, "")
+        return Node(op, [gen_tree(rng, depth - 1), right])
     return Node(op, [gen_tree(rng, depth - 1), gen_tree(rng, depth - 1)])
 
 
@@ -307,7 +313,7 @@ def oracle_loose(t):
     if t.op in "+-":
         return a | b, False
     if t.op in "*/":
-        return a, False
+        return (b if a == {""} else a), False
     raise Undefined
 
 
@@ -380,6 +386,13 @@ def localise(ctx, t):
                        "how": "ledger eval 'verif_rational(%s)'" % cur.text()})
         return
     ctx.violation("C03:expr", "ledger computes a wrong value for %s" % t.text(), {"expr": t.text()})
+
+
+def shape_of(t):
+    """operator skeleton with leaf kinds (not values): failures of one shape share a cause."""
+    if isinstance(t, Leaf):
+        return "i" if t.kind == "int" else ("c" if t.comm else "p")
+    return "(" + t.op + " " + " ".join(shape_of(k) for k in t.kids) + ")"
 
 
 def leaves(t):
@@ -462,6 +475,10 @@ def run(tier, seed):
     if not ctx.prepare():
         return ctx.finish()
     rng = ctx.rng
+    # search mode: a proof obligation or extractor broke -> widen every stream
+    search = bool(ctx.ties_broken)
+    if search:
+        ctx.extra_cov["search_mode"] = [t[0] for t in ctx.ties_broken]
     cases = []
     reps = type_representatives()
     allreps = [(k, v) for k, vs in reps.items() for v in vs]
@@ -473,14 +490,41 @@ def run(tier, seed):
         cases.append(Node("abs", [a]))
     n_exh = len(cases)
     ctx.extra_cov["exhaustive_type_pairs"] = n_exh
-    n_rand = 1500 if tier == "quick" else 60000
-    maxd = 3 if tier == "quick" else 5
+    n_rand = 8000 if tier == "quick" else 120000
+    if search:
+        n_rand *= 3
+    maxd = 4 if tier == "quick" else 6
     for i in range(n_rand):
         d = rng.randint(1, maxd)
         t = gen_tree(rng, d)
         if rng.random() < 0.25:
             t = Node(rng.choice(CMP), [t, gen_tree(rng, rng.randint(0, 2))])
         cases.append(t)
+    # near-equal comparisons: random operands almost never tie or differ in the last place,
+    # so ordering/equality get their own stream: x against x, x ± one unit in its last place,
+    # x ± 10^-20, at every magnitude (incl. around 2^53 and 2^64)
+    n_near = 150 if tier == "quick" else 3000
+    if search:
+        n_near *= 5
+    for i in range(n_near):
+        digits = rng.choice([1, 2, 5, 9, 12, 15, 16, 17, 18, 19, 20, 21, 25, 40])
+        comm = rng.choice(["", "", "EUR", "USD", "BTC", "PQ"])
+        dec = rng.randint(0, COMMS[comm]) if comm else rng.choice([0, 0, 1, 2, 6, 12, 19, 20])
+        n = rng.choice([rng.randint(10 ** (digits - 1), 10 ** digits), 2 ** 53, 2 ** 53 + 1, 2 ** 63, 2 ** 64 - 1, 2 ** 64])
+        x = Fraction(n, 10 ** dec) * rng.choice([1, 1, -1])
+        step = rng.choice([Fraction(0), Fraction(1, 10 ** dec), Fraction(-1, 10 ** dec)])
+        y = x + step
+        lx, ly = Leaf("amt", x, dec, comm), Leaf("amt", y, dec, comm)
+        if rng.random() < 0.3 and not comm:
+            extra = rng.choice([Fraction(1, 10 ** 20), Fraction(-1, 10 ** 20)])
+            ly = Leaf("amt", x + extra, 20, comm)
+        if rng.random() < 0.3:
+            # reach the same comparison through arithmetic: (x + d) - d against y
+            d = gen_leaf(rng, "plain" if not comm else "comm")
+            if d.comm == comm:
+                lx = Node("-", [Node("+", [lx, d]), d])
+        for op in CMP:
+            cases.append(Node(op, [lx, ly]))
     # long folds
     for i in range(20 if tier == "quick" else 400):
         t = gen_leaf(rng)
@@ -488,12 +532,21 @@ def run(tier, seed):
             t = Node(rng.choice(["+", "-", "*", "+", "-"]), [t, gen_leaf(rng, rng.choice(["plain", "comm", "int"]))])
         cases.append(t)
     run_cases(ctx, cases)
-    seen = 0
+    # localise failures: shortest first, skipping shapes already attributed, within a time budget
+    import time as _time
+    t_end = _time.time() + (60 if tier == "quick" else 300)
+    attributed = set()
+    n_loc = 0
     for t in sorted(ctx.failing, key=lambda x: len(x.text())):
-        if seen >= 40:
+        if _time.time() > t_end or n_loc >= 400:
             break
-        seen += 1
-        localise(ctx, t)
+        shape = shape_of(t)
+        if shape in attributed:
+            continue
+        n_loc += 1
+        fp = localise(ctx, t)
+        attributed.add(shape)
+    ctx.extra_cov["localised"] = n_loc
     ctx.extra_cov["oracle_failures"] = len(ctx.failing)
     for n in ([50, 400] if tier == "quick" else [50, 400, 2000, 2000]):
         report_totals(ctx, n)
